@@ -2,12 +2,13 @@
 (* Shared input generator for the "all strings" properties (C07, C16, C18):  *)
 (* every string over Alphabet up to MaxLen, built one character per step, so *)
 (* the state graph is the prefix tree and every as-you-type prefix is a case.*)
-(* Constants cannot hold a backslash or a line break: "BS" / "NL" / "TAB"    *)
+(* Constants cannot hold a backslash or a line break: "BS" / "NL" / "CR" /   *)
+(* "TAB" / "DQ"                                                              *)
 (* stand for them.                                                           *)
 EXTENDS Common, Json
 CONSTANTS Alphabet, MaxLen
 VARIABLE s
-Sym(c) == IF c = "NL" THEN "\n" ELSE IF c = "TAB" THEN "\t" ELSE IF c = "DQ" THEN "\"" ELSE Ch(c)
+Sym(c) == IF c = "NL" THEN "\n" ELSE IF c = "CR" THEN "\r" ELSE IF c = "TAB" THEN "\t" ELSE IF c = "DQ" THEN "\"" ELSE Ch(c)
 Init == s = ""
 Next == Len(s) < MaxLen /\ \E c \in Alphabet : s' = s \o Sym(c)
 Spec == Init /\ [][Next]_s
